@@ -18,14 +18,20 @@ def rwWrites (r : Rep) : List RepOp → Nat
      | .cwrite n _ => if r.isOpen && r.mode = .rw then n else 0
      | _ => 0) + rwWrites (r.step op).1 ops
 
+/-- requests by which the counter is set from outside: `SetRevisionCounter`, and in the rebuild
+    protocol of the harness the swap to the rebuilt replica (another replica's counter from then on)
+    and its promotion (`SetRevisionCounter` by the controller, see `c10_promotion_*`) -/
+def setsRev : RepOp → Bool
+  | .setRev _ | .rbReload | .rbPromote => true
+  | _ => false
+
 def noSetRev : List RepOp → Prop
   | [] => True
-  | .setRev _ :: _ => False
-  | _ :: ops => noSetRev ops
+  | op :: ops => setsRev op = false ∧ noSetRev ops
 
 /-- one request: a write applied in RW adds exactly one; a write applied in WO, a refused write and
     every other request except `setRev` leave the counter alone -/
-theorem c10_step (r : Rep) (op : RepOp) (h : ∀ n, op ≠ .setRev n) :
+theorem c10_step (r : Rep) (op : RepOp) (h : setsRev op = false) :
     (r.step op).1.rev = r.rev + rwWrites r [op] := by
   cases op with
   | write off len tag =>
@@ -38,7 +44,7 @@ theorem c10_step (r : Rep) (op : RepOp) (h : ∀ n, op ≠ .setRev n) :
         cases h1 : r.isOpen <;> cases h2 : r.inVolume off len <;> simp_all
       simp only [c, if_false]
       cases hm : r.mode <;> simp [c'.1, c'.2, rwWrites]
-  | setRev n => exact absurd rfl (h n)
+  | setRev n => simp [setsRev] at h
   | cwrite n tag =>
     unfold rwWrites Rep.step
     cases h1 : r.isOpen <;> cases hm : r.mode <;> simp [rwWrites]
@@ -59,6 +65,11 @@ theorem c10_step (r : Rep) (op : RepOp) (h : ∀ n, op ≠ .setRev n) :
   | drop => simp [Rep.step, rwWrites]
   | setMode m => unfold Rep.step rwWrites; simp only [rwWrites]; split <;> simp
   | setCkpt s => unfold Rep.step rwWrites; simp only [rwWrites]; split <;> simp
+  | rbBegin n => unfold Rep.step rwWrites; simp only [rwWrites]; split <;> simp
+  | rbReload => simp [setsRev] at h
+  | lunmap => unfold Rep.step rwWrites; simp only [rwWrites]; split <;> simp
+  | rbPromote => simp [setsRev] at h
+  | rbEnd => unfold Rep.step rwWrites; simp only [rwWrites]; split <;> simp
 
 /-- **C10 (exact).** Over any history without `SetRevisionCounter` — writes, mode changes,
     snapshots, deletions, reverts, close/open/reload — the counter grows by exactly the number of
@@ -69,10 +80,8 @@ theorem c10_exact (ops : List RepOp) : ∀ (r : Rep), noSetRev ops →
   | nil => intro r _; simp [Rep.run, rwWrites]
   | cons op ops ih =>
     intro r hn
-    have hop : ∀ n, op ≠ .setRev n := by
-      intro n e; subst e; exact hn
-    have hn' : noSetRev ops := by
-      cases op <;> first | exact hn | exact absurd rfl (hop _)
+    have hop : setsRev op = false := hn.1
+    have hn' : noSetRev ops := hn.2
     have s := c10_step r op hop
     show ((r.step op).1.run ops).rev = r.rev + rwWrites r (op :: ops)
     rw [ih _ hn', s]
